@@ -445,6 +445,36 @@ class Prop(object):
             r.outcomes['wrongpass:' + oc] += 1
             if oc != 'error':
                 r.viol('must-raise', dict(tags, grp='passphrase'), case, 'wrong passphrase %r decrypted the message' % (w,))
+        # passphrases given as octets that are not valid UTF-8 (Latin-1 text, key-file material): other octet strings of the same shape are wrong ones
+        from pgpy.constants import SymmetricKeyAlgorithm as _SKA, HashAlgorithm as _HA, CompressionAlgorithm as _CA
+        for right in (b'caf\xe9-2024', bytes(range(0x80, 0x88)), b'\xff\xfe\x00binary'):
+            try:
+                bm = pgpy.PGPMessage.new(BODIES['b17'], compression=_CA.Uncompressed, format='b')
+                bblob = bytes(bm.encrypt(right, cipher=_SKA[case['cipher']], hash=_HA.SHA256))
+                ok = A.msg_view(pgpy.PGPMessage.from_blob(bblob).decrypt(right))['data'] == BODIES['b17']
+            except Exception:
+                r.outcomes['bytespass:not-accepted'] += 1
+                continue
+            r.states += 1
+            r.transitions += 1
+            if not ok:
+                r.viol('base-fails', dict(tags, grp='bytes-passphrase'), dict(case), 'message encrypted with the octet passphrase %r does not decrypt with it' % (right,))
+                continue
+            variants = [right[:3] + bytes([right[3] ^ 0x01]) + right[4:], right[:3] + b'\xff' + right[4:], bytes(b ^ 0x40 if b >= 0x80 else b for b in right),
+                        right.decode('latin-1'), right.decode('utf-8', 'replace'), right.decode('utf-8', 'replace').encode('utf-8'), right.decode('utf-8', 'ignore')]
+            for w in variants:
+                if w == right:
+                    continue
+                r.states += 1
+                r.transitions += 1
+                try:
+                    pgpy.PGPMessage.from_blob(bblob).decrypt(w)
+                    oc = 'decrypted'
+                except Exception:
+                    oc = 'error'
+                r.outcomes['bytespass:' + oc] += 1
+                if oc != 'error':
+                    r.viol('must-raise', dict(tags, grp='bytes-passphrase'), dict(case), 'message encrypted with the octet passphrase %r was opened by the different passphrase %r' % (right, w))
         # passphrases longer than the octet count of the iterated S2K (coded count 0 = 1024 octets incl. the salt): the whole passphrase counts, a wrong
         # one that agrees on the first 1016 octets is still wrong
         from pgpy.constants import SymmetricKeyAlgorithm, HashAlgorithm, CompressionAlgorithm
